@@ -1829,6 +1829,10 @@ class Interpreter(InterpreterBase, HoldableObject):
             self.environment.wrap_resolver.find_program_provider(args) \
             if self.environment.wrap_resolver is not None \
             else None
+        if fallback and wrap_mode != WrapMode.forcefallback and fallback not in force_fallback_for:
+            # force_fallback_for applies to every alternative name, not only to the first one that has a provider
+            providers = [self.environment.wrap_resolver.find_program_provider([a]) for a in args]
+            fallback = next((p for p in providers if p in force_fallback_for), fallback)
         if fallback and (wrap_mode == WrapMode.forcefallback or fallback in force_fallback_for):
             return self.find_program_fallback(fallback, args, for_machine, default_options, required, extra_info)
 
